@@ -144,6 +144,35 @@ func goEnv() []string {
 	return env
 }
 
+// modArgs: when another tree than /repo is checked (VERIF_REPO), the harness module is built with a scratch copy of
+// its go.mod whose replace directive points at that tree, so that the tree's own go.mod (language version, loop
+// variable semantics) governs its packages. /repo's files are not involved at all then.
+func modArgs() []string {
+	if repoDir == "/repo" {
+		return nil
+	}
+	mod := filepath.Join(scratch, "go.mod")
+	if _, err := os.Stat(mod); err != nil {
+		b, err := os.ReadFile(filepath.Join(verifDir, "go.mod"))
+		if err != nil {
+			die2("cannot read the harness go.mod: %v", err)
+		}
+		nb := strings.Replace(string(b), "=> /repo", "=> "+repoDir, 1)
+		if nb == string(b) {
+			die2("the harness go.mod has no replace directive for /repo")
+		}
+		os.WriteFile(mod, []byte(nb), 0o644)
+		if sb, err := os.ReadFile(filepath.Join(verifDir, "go.sum")); err == nil {
+			os.WriteFile(filepath.Join(scratch, "go.sum"), sb, 0o644)
+		}
+	}
+	return []string{"-modfile", mod}
+}
+
+func goArgs(first string, rest ...string) []string {
+	return append(append([]string{first}, modArgs()...), rest...)
+}
+
 func die2(format string, a ...any) {
 	fmt.Fprintf(os.Stderr, "check: "+format+"\n", a...)
 	cleanup()
@@ -231,12 +260,12 @@ func main() {
 	defer cleanup()
 
 	// 1. rewrite + build from /repo's current working tree
-	if out, err := runCmd(verifDir, goEnv(), goBin, "run", "./verifgen", "-repo", repoDir, "-target", "/repo", "-out", scratch); err != nil {
+	if out, err := runCmd(verifDir, goEnv(), goBin, "run", "./verifgen", "-repo", repoDir, "-target", repoDir, "-out", scratch); err != nil {
 		die2("verifgen failed: %v\n%s", err, out)
 	}
 	bin := filepath.Join(scratch, "worker.test")
-	if out, err := runCmd(verifDir, goEnv(), goBin, "test", "-c", "-overlay", filepath.Join(scratch, "overlay.json"), "-o", bin, "./worker"); err != nil {
-		die2("building the worker against /repo failed (exit 2, not a violation): %v\n%s", err, out)
+	if out, err := runCmd(verifDir, goEnv(), goBin, goArgs("test", "-c", "-overlay", filepath.Join(scratch, "overlay.json"), "-o", bin, "./worker")...); err != nil {
+		die2("building the worker against %s failed (exit 2, not a violation): %v\n%s", repoDir, err, out)
 	}
 	var genReport map[string]any
 	if b, err := os.ReadFile(filepath.Join(scratch, "verifgen_report.json")); err == nil {
@@ -1066,6 +1095,7 @@ func raceLeg(prop, tier string, seed int64, secs int, info map[string]any, fixed
 	if plainRealLeg[prop] {
 		args = append(args[:1], args[2:]...)
 	}
+	args = goArgs(args[0], args[1:]...)
 	if out, err := runCmd(verifDir, goEnv(), goBin, args...); err != nil {
 		die2("building the race leg failed: %v\n%s", err, out)
 	}
@@ -1243,11 +1273,11 @@ func selftest(props []string) int {
 		die2("mktemp: %v", err)
 	}
 	defer cleanup()
-	if out, err := runCmd(verifDir, goEnv(), goBin, "run", "./verifgen", "-repo", repoDir, "-target", "/repo", "-out", scratch); err != nil {
+	if out, err := runCmd(verifDir, goEnv(), goBin, "run", "./verifgen", "-repo", repoDir, "-target", repoDir, "-out", scratch); err != nil {
 		die2("verifgen failed: %v\n%s", err, out)
 	}
 	bin := filepath.Join(scratch, "worker.test")
-	if out, err := runCmd(verifDir, goEnv(), goBin, "test", "-c", "-overlay", filepath.Join(scratch, "overlay.json"), "-o", bin, "./worker"); err != nil {
+	if out, err := runCmd(verifDir, goEnv(), goBin, goArgs("test", "-c", "-overlay", filepath.Join(scratch, "overlay.json"), "-o", bin, "./worker")...); err != nil {
 		die2("building the worker failed: %v\n%s", err, out)
 	}
 	// non-deterministic iteration in the harness itself would show up here first
